@@ -149,7 +149,7 @@ Section FlagWalk.
     destruct (co_audit o).
     - apply (R_trans _ (da_st a)); [exact D|]. apply fold_R. intros st [[j f] i]. walk.
     - pose proof (parity_phase_R (da_st a)) as Pp. destruct (parity_phase nlev o pos (da_st a)) as [rec s1a]. cbn [snd] in Pp.
-      destruct (repair hashf padz bs nlev reduced pos (co_nosearch o) fs0 (da_failed a) rec (da_buf a) (r_jn s1a)) as [[[[res failed'] buf] jn'] rtags].
+      destruct (repair hashf padz bs nlev reduced pos (co_nosearch o) (search_view fs0 (r_fs s1a)) (da_failed a) rec (da_buf a) (r_jn s1a)) as [[[[res failed'] buf] jn'] rtags].
       assert (X1 : R s (rs_tag (rs_setjn s1a jn') rtags)) by (apply (R_trans _ (da_st a)); [exact D|]; walk).
       set (s1b := rs_tag (rs_setjn s1a jn') rtags) in *.
       destruct res.
